@@ -55,7 +55,10 @@ ItemXmlns(it) == IF "xmlns" \in DOMAIN it THEN it.xmlns ELSE <<>>
 Binding(decls, p) == IF \E i \in 1..Len(decls) : decls[i][1] = p
                      THEN decls[CHOOSE i \in 1..Len(decls) : decls[i][1] = p /\ \A j \in 1..(i - 1) : decls[j][1] # p][2]
                      ELSE "?"
-UriOf(f, it, p) == IF Binding(ItemXmlns(it), p) # "?" THEN Binding(ItemXmlns(it), p) ELSE Binding(f.xmlns, p)
+\* (the concretiser binds tns: on wsdl:definitions to the WSDL's own namespace)
+UriOf(f, it, p) == IF Binding(ItemXmlns(it), p) # "?" THEN Binding(ItemXmlns(it), p)
+                   ELSE IF Binding(f.xmlns, p) # "?" THEN Binding(f.xmlns, p)
+                   ELSE IF p = "tns" /\ f.kind = "wsdl" THEN f.tns ELSE "?"
 
 RECURSIVE ReachFrom(_, _, _)
 ReachFrom(S, frontier, seen) ==
@@ -137,6 +140,42 @@ ExpFields(S, f, it, body) ==
   LET ms == Members(S, f, it, body, 8) IN
   [i \in 1..Len(ms) |-> [xml |-> ms[i].xml, attr |-> ms[i].attr, w |-> Wrapper(ms[i].min, ms[i].max),
                          target |-> ms[i].target, ns |-> ms[i].ns]]
+
+---------------------------------------------------------------------------
+(* restricted simple types: the facets that apply to a value (own and inherited through derivation) and one     *)
+(* lexical value inside / outside them (the values the drivers use; integers for ranges, k...k for lengths)      *)
+RECURSIVE EffFacets(_, _, _)
+EffFacets(S, c, fuel) ==
+  IF c.k # "simple" \/ fuel = 0 THEN <<>>
+  ELSE LET b == IF c.it.base.k = "named" THEN ResolveType(S, FileNamed(S, c.f), c.it, c.it.base) ELSE None
+       IN (IF b = None THEN <<>> ELSE EffFacets(S, b, fuel - 1)) \o c.it.facets
+FacetVals(fs, names) == {fs[i][2] : i \in {i \in 1..Len(fs) : fs[i][1] \in names}}
+SetMax(X) == CHOOSE x \in X : \A y \in X : y <= x
+SetMin(X) == CHOOSE x \in X : \A y \in X : x <= y
+RECURSIVE Ks(_)
+Ks(n) == IF n <= 0 THEN "" ELSE "k" \o Ks(n - 1)
+Enums(fs) == [i \in 1..Cardinality({i \in 1..Len(fs) : fs[i][1] = "enum"}) |->
+                fs[CHOOSE j \in 1..Len(fs) : fs[j][1] = "enum" /\ Cardinality({k \in 1..j : fs[k][1] = "enum"}) = i][2]]
+\* upper / lower bound of the integer range (exclusive bounds moved in by one), as sets (empty = unbounded)
+UpperB(fs) == FacetVals(fs, {"maxInc"}) \cup {v - 1 : v \in FacetVals(fs, {"maxExc"})}
+LowerB(fs) == FacetVals(fs, {"minInc"}) \cup {v + 1 : v \in FacetVals(fs, {"minExc"})}
+MaxLenB(fs) == FacetVals(fs, {"maxLen", "len"})
+MinLenB(fs) == FacetVals(fs, {"minLen", "len"})
+HasFacets(fs) == Len(fs) > 0
+ValidText(fs) ==
+  IF Len(Enums(fs)) > 0 THEN Enums(fs)[1]
+  ELSE IF UpperB(fs) # {} THEN ToString(SetMin(UpperB(fs)))
+  ELSE IF LowerB(fs) # {} THEN ToString(SetMax(LowerB(fs)))
+  ELSE IF MaxLenB(fs) # {} THEN Ks(SetMin(MaxLenB(fs)))
+  ELSE IF MinLenB(fs) # {} THEN Ks(SetMax(MinLenB(fs)) + 3)
+  ELSE "?"
+InvalidText(fs) ==
+  IF Len(Enums(fs)) > 0 THEN "zz-not-in-enumeration"
+  ELSE IF UpperB(fs) # {} THEN ToString(SetMin(UpperB(fs)) + 1)
+  ELSE IF LowerB(fs) # {} THEN ToString(SetMax(LowerB(fs)) - 1)
+  ELSE IF MaxLenB(fs) # {} THEN Ks(SetMin(MaxLenB(fs)) + 1)
+  ELSE IF MinLenB(fs) # {} /\ SetMax(MinLenB(fs)) > 0 THEN Ks(SetMax(MinLenB(fs)) - 1)
+  ELSE "?"
 
 \* components that must have a struct: named complex types, named simple types, anonymous-typed global elements
 StructComps(S) == {c \in TypesOf(S) : TRUE} \cup {e \in ElemsOf(S) : "inline" \in DOMAIN e.it}
